@@ -84,9 +84,13 @@ func TestVerifC14_fp25519(t *testing.T) {
 	all := verifc14.FieldAlphabet(4, wide, named, -19, 19, c.R.Pick(8, 64), "fp25519")
 	key := verifc14.Thin(all, c.R.Pick(48, 160))
 	c.R.Rule("operands: every 32-byte string whose four limbs are in {0,1,2^63,2^64-1}; every string one limb away from 00../FF.. over a 16-value limb list; " +
-		"p, 2p, 2^255, 2^256-20 each -19..+19; SHAKE-derived strings. Binary ops on ALL ordered pairs with output fresh / =x / =y; unary ops fresh and in place; " +
+		"p, 2p, 2^255, 2^256-20 each -19..+19; SHAKE-derived strings. Binary ops on all x all ordered pairs in the thorough tier and all x every-4th in the quick tier (output fresh; also =x and =y for key operands); unary ops fresh and in place; " +
 		"AddSub, Cmov, Cswap, InvSqrt on the thinned key alphabet squared. A case = (operation, first operand); its digest covers every second operand, raw output bytes and ToBytes form")
 	c.R.NotExhaustive("operands are the declared limb alphabet, not all 2^256 strings")
-	verifc14.RunField(c, c14Field(), all, key)
+	second := all
+	if !c.R.Thorough() {
+		second = verifc14.Thin(all, 120)
+	}
+	verifc14.RunField(c, c14Field(), all, second, key)
 	c.Finish(1000)
 }
